@@ -449,6 +449,7 @@ Record hstate := { h_buf : list N; h_curs : list Z }.       (* the shared buffer
 Inductive hop :=
 | HWrite (mem : option (list N)) (size : Z)      (* writer.write(mem, size)                *)
 | HNew                                           (* BufferReader r_k(writer.buffer)        *)
+| HCopy (k : nat)                                (* BufferReader r_n(r_k): implicit copy   *)
 | HRead (k : nat) (mem : bool) (size : Z)        (* r_k.read(mem, size)                    *)
 | HView (k : nat) (count : Z)                    (* r_k.getView<uint8_t>(count)            *)
 | HEnd (k : nat).                                (* r_k.end()                              *)
@@ -474,6 +475,11 @@ Definition h_step (st : hstate) (op : hop) : hstate * hout :=
       | None => (st, HOob)
       end
   | HNew => ({| h_buf := h_buf st; h_curs := h_curs st ++ [0] |}, HReader (length (h_curs st)))
+  | HCopy k =>
+      match nth_error (h_curs st) k with
+      | Some c => ({| h_buf := h_buf st; h_curs := h_curs st ++ [c] |}, HReader (length (h_curs st)))
+      | None => (st, HBad)
+      end
   | HRead k mem size =>
       match nth_error (h_curs st) k with
       | Some c =>
